@@ -1211,6 +1211,30 @@ def r7(run: Run, rt):
             run.ok('C12.R7', f'_regexp[{cp.label}]/metacharacters', 'all metacharacters escaped', loc=cp.loc(fn))
 
 
+def r9_pattern_token_language(run: Run, g):
+    """which text literals are wildcard patterns: exactly those with a ? or * that is not escaped by ~, wherever it stands.  The
+    regexp constant of PatternToken is matched (standard re module) against literals with a known answer."""
+    import re
+    t = g.terminals.get('PatternToken')
+    if t is None:
+        raise AnalysisError('C12.R9', 'PatternToken not found')
+    try:
+        rx = re.compile(t.regexp)
+    except re.error as e:
+        raise AnalysisError('C12.R9', f'PatternToken.regexp does not compile: {e}')
+    yes = ['"a*"', '"?"', '"*"', '"a?c"', '"ready~?*"', '"ready~? ???"', '"5~*?=*"', '"~~*"', '"a~*b*"', '"*~?"', '"x?~*"', '"~?~**"']
+    no = ['"abc"', '""', '"a~?"', '"~*"', '"a~*b~?c"', '"1+2"']
+    for lit in yes:
+        run.check(rx.fullmatch(lit) is not None, 'C12.R9', f'PatternToken/{lit}', 'wildcard-literal-not-a-pattern',
+                  f'the literal {lit} contains an unescaped wildcard but is not matched by PatternToken.regexp {t.regexp!r}: it is lexed '
+                  f'as a plain literal and compared for equality, so the criterion accepts nothing', fact='is a pattern',
+                  loc=loc_of(t.ci.module.path, t.ci.node))
+    for lit in no:
+        run.check(rx.fullmatch(lit) is None, 'C12.R9', f'PatternToken/{lit}', 'plain-literal-is-a-pattern',
+                  f'the literal {lit} has no unescaped wildcard but is matched by PatternToken.regexp {t.regexp!r}', fact='is not a pattern',
+                  loc=loc_of(t.ci.module.path, t.ci.node))
+
+
 def r4(run: Run, src):
     from . import c02
     sub = Run('tmp', run.tier, run.seed, quiet=True)
@@ -1228,6 +1252,72 @@ def r4(run: Run, src):
         run.errors.append(f'C12.R4 <- {e}')
     if n == 0:
         raise AnalysisError('C12.R4', 'Excel.get_similar_second was not analysed')
+    _similar_second_linear(run, src)
+
+
+def _similar_second_linear(run: Run, src):
+    """the last cell of the SUMIF target is base + (second - first), per axis, as a linear expression over the coordinates of the
+    three cells: roles alone do not tell `base.row + rows` from `first.row + rows`"""
+    from .common import normalized_method
+    from ..roles import cell_field_order
+    fi, fn = normalized_method(src, 'Excel', 'get_similar_second')
+    ps = [p for p in fi.params if p not in ('self', 'cls')]
+    if len(ps) != 3:
+        raise AnalysisError('C12.R4', f'get_similar_second: unexpected signature {ps}')
+    base, first, second = ps
+    assigns = {}
+    for n_ in ast.walk(fn):
+        if isinstance(n_, ast.Assign) and len(n_.targets) == 1 and isinstance(n_.targets[0], ast.Name):
+            assigns.setdefault(n_.targets[0].id, []).append(n_.value)
+
+    def lin(e, depth=0):
+        if depth > 8:
+            return None
+        if isinstance(e, ast.Attribute) and isinstance(e.value, ast.Name) and e.value.id in ps:
+            return {(e.value.id, e.attr): 1}
+        if isinstance(e, ast.Constant) and isinstance(e.value, int) and not isinstance(e.value, bool):
+            return {1: e.value} if e.value else {}
+        if isinstance(e, ast.Name) and len(assigns.get(e.id, [])) == 1:
+            return lin(assigns[e.id][0], depth + 1)
+        if isinstance(e, ast.BinOp) and isinstance(e.op, (ast.Add, ast.Sub)):
+            a, b = lin(e.left, depth + 1), lin(e.right, depth + 1)
+            if a is None or b is None:
+                return None
+            out = dict(a)
+            for k, v in b.items():
+                out[k] = out.get(k, 0) + (v if isinstance(e.op, ast.Add) else -v)
+            return {k: v for k, v in out.items() if v}
+        if isinstance(e, ast.IfExp):
+            none_b = isinstance(e.body, ast.Constant) and e.body.value is None
+            none_o = isinstance(e.orelse, ast.Constant) and e.orelse.value is None
+            if none_o and not none_b:
+                return lin(e.body, depth + 1)
+            if none_b and not none_o:
+                return lin(e.orelse, depth + 1)
+            a, b = lin(e.body, depth + 1), lin(e.orelse, depth + 1)
+            return a if a == b else None
+        if isinstance(e, ast.Call) and isinstance(e.func, ast.Name) and e.func.id == 'int' and len(e.args) == 1:
+            return lin(e.args[0], depth + 1)
+        return None
+    rets = [r for r in ast.walk(fn) if isinstance(r, ast.Return) and isinstance(r.value, ast.Call) and
+            isinstance(r.value.func, ast.Name) and r.value.func.id == 'Cell']
+    if not rets:
+        raise AnalysisError('C12.R4', 'get_similar_second does not return a Cell(...) construction')
+    fields = cell_field_order(src)
+    for r in rets:
+        args = dict(zip(fields, r.value.args))
+        args.update({k.arg: k.value for k in r.value.keywords})
+        for fld in ('column', 'row'):
+            want = {(base, fld): 1, (second, fld): 1, (first, fld): -1}
+            got = lin(args[fld]) if fld in args else None
+            if got is None:
+                raise AnalysisError('C12.R4', f'get_similar_second: the {fld} of the result is not a linear expression of the coordinates')
+
+            def show(d):
+                return ' '.join(('+' if v > 0 else '-') + (f'{k[0]}.{k[1]}' if isinstance(k, tuple) else str(abs(v))) for k, v in sorted(d.items(), key=str))
+            run.check(got == want, 'C12.R4', f'Excel.get_similar_second/{fld}', 'target-shape',
+                      f'the {fld} of the last target cell is `{show(got)}`; it must be `{show(want)}` (the target starts at its own first '
+                      f'cell and has the shape of the criteria range)', fact=show(got), loc=loc_of(fi.module.path, r))
 
 
 def run(run: Run):
@@ -1257,6 +1347,9 @@ def run(run: Run):
     _src = _gs()
     _borrow(run, 'C12.R8', _c08.r1, _src, _grt(_src), _gcg(_src))
     _borrow(run, 'C12.R8', _c08.r4, _src, _grt(_src))
+    run.rule('C12.R9', 'a text literal is a wildcard pattern exactly when it has an unescaped ? or *')
+    run.guard('C12.R9', r9_pattern_token_language, run, g)
+    run.floor('C12.R9', 18)
     run.floor('C12.R8', 50)
     run.floor('C12.R1', 20)
     run.floor('C12.R2', 20)
